@@ -10,6 +10,7 @@ import (
 // H265 (C14 and the H265 instances of C08/C09).
 // opcodes: 1401 addDONL skipAggregation [[mtu annexb]...]   one H265Payloader, a history of calls
 //          1402 withDONL [payloads...]                       H265Packet.Unmarshal of each payload
+//          1405 withDONL form                                independent RFC 7798 encoder -> H265Packet, fields compared with the form
 //          1403 h   payload-header accessors of the 16-bit value h
 //          1404 b   FU-header accessors of the byte b
 
@@ -21,6 +22,10 @@ func genH265Nal(c *RNG, size int) []byte {
 	typ := c.Intn(48)
 	b[0] = byte(typ)<<1 | byte(c.Intn(2)) // F = 0, top bit of layer id
 	b[1] = byte(c.Intn(32))<<3 | byte(1+c.Intn(7))
+	if c.Intn(3) == 0 { // small layer ids and TIDs, so that minima of different units cross
+		b[0] &^= 1
+		b[1] = byte(c.Intn(3))<<3 | byte(1+c.Intn(3))
+	}
 	if b[2] == 0 && b[1] == 0 {
 		b[2] = 3
 	}
@@ -116,6 +121,9 @@ func runH265History(donl, skip bool, calls []Tok) Outcome {
 			if len(f) == 0 {
 				o.Fail = fmt.Sprintf("call %d: empty fragment", ci)
 			}
+			if why := checkH265AggHeader(f, donl); why != "" && o.Fail == "" {
+				o.Fail = fmt.Sprintf("call %d: fragment %d: %s", ci, fi, why)
+			}
 		}
 		res = append(res, OkV(items))
 		if !g.intact(in) {
@@ -129,6 +137,50 @@ func runH265History(donl, skip bool, calls []Tok) Outcome {
 	}
 	o.Impl = res
 	return o
+}
+
+// RFC 7798 4.4.2: an aggregation packet's payload header carries F = 0 (no unit has it set here),
+// type 48, and the lowest LayerId and the lowest TID of the aggregated units, each taken separately.
+// Walks the packet independently of the library's parser.
+func checkH265AggHeader(f []byte, donl bool) string {
+	if len(f) < 4 || (f[0]>>1)&0x3F != 48 {
+		return ""
+	}
+	hl, ht := int(f[0]&1)<<5|int(f[1]>>3), int(f[1]&7)
+	off, n := 2, 0
+	minL, minT := 64, 8
+	for off < len(f) {
+		if donl {
+			if n == 0 {
+				off += 2
+			} else {
+				off++
+			}
+		}
+		if off+2 > len(f) {
+			break
+		}
+		sz := int(f[off])<<8 | int(f[off+1])
+		off += 2
+		if sz < 2 || off+sz > len(f) {
+			return "" // not an aggregation packet this walk can judge (e.g. an input unit that itself has type 48)
+		}
+		if l := int(f[off]&1)<<5 | int(f[off+1]>>3); l < minL {
+			minL = l
+		}
+		if t := int(f[off+1] & 7); t < minT {
+			minT = t
+		}
+		off += sz
+		n++
+	}
+	if n < 2 || off != len(f) {
+		return ""
+	}
+	if hl != minL || ht != minT {
+		return fmt.Sprintf("aggregation header carries layer id %d / TID %d, the units' minima are %d / %d", hl, ht, minL, minT)
+	}
+	return ""
 }
 
 func runH265Parse(donl bool, payloads [][]byte) Outcome {
@@ -213,9 +265,194 @@ func h265Reassemble(donl bool, frags [][]byte) (nals [][]byte, why string) {
 	return nals, ""
 }
 
+// ---- independent RFC 7798 encoder (parser clause of C14) -----------------------------------
+// form tokens: [0 ty layer tid donl xpayload] single | [1 layer tid donl xfirst [[dond xunit]...]] aggregation
+//              [2 layer tid s e futype donl xpayload] FU | [3 layer tid a ctype phs f0 f1 f2 y xphes xpayload] PACI
+
+func genRfc7798Form(c *RNG) TList {
+	layer, tid := int64(c.Pick(0, 1, 63, c.Intn(64))), int64(c.Pick(0, 1, 7, c.Intn(8)))
+	donl := int64(c.Pick(0, 1, 255, 256, 65535, c.Intn(65536)))
+	payload := func(min int) Tok { return TBytes(c.Bytes(min + c.Intn(8))) }
+	switch c.Intn(4) {
+	case 0:
+		return TList{TI(0), TI(int64(c.Intn(48))), TI(layer), TI(tid), TI(donl), payload(1)}
+	case 1:
+		os := TList{}
+		for u, un := 0, 1+c.Intn(4); u < un; u++ {
+			os = append(os, TList{TI(int64(c.Pick(0, 1, 255, c.Intn(256)))), TBytes(c.Bytes(c.Pick(0, 1, 2, 2+c.Intn(9))))})
+		}
+		return TList{TI(1), TI(layer), TI(tid), TI(donl), TBytes(c.Bytes(c.Pick(0, 2, 2+c.Intn(9)))), os}
+	case 2:
+		return TList{TI(2), TI(layer), TI(tid), TI(b2i(c.Bool())), TI(b2i(c.Bool())), TI(int64(c.Pick(0, 1, 19, 32, 63, c.Intn(64)))), TI(donl), payload(1)}
+	}
+	phs := c.Pick(0, 1, 2, 3, 3, 4, 15, 16, 19, 31, c.Intn(32))
+	return TList{TI(3), TI(layer), TI(tid), TI(b2i(c.Bool())), TI(int64(c.Pick(0, 1, 33, 63, c.Intn(64)))), TI(int64(phs)),
+		TI(b2i(c.Intn(3) != 0)), TI(b2i(c.Bool())), TI(b2i(c.Bool())), TI(b2i(c.Bool())), TBytes(c.Bytes(phs)), payload(1)}
+}
+
+func be16b(v int64) []byte { return []byte{byte(v >> 8), byte(v)} }
+
+// rfc7798Encode is written from RFC 7798 4.4.1-4.4.4 and shares no code with the library.
+func rfc7798Encode(donl bool, f []Tok) []byte {
+	hdr := func(ty, layer, tid int64) []byte { return be16b(ty<<9 | layer<<3 | tid) }
+	switch tokInt(f[0]) {
+	case 0:
+		b := hdr(tokInt(f[1]), tokInt(f[2]), tokInt(f[3]))
+		if donl {
+			b = append(b, be16b(tokInt(f[4]))...)
+		}
+		return append(b, tokBytes(f[5])...)
+	case 1:
+		b := hdr(48, tokInt(f[1]), tokInt(f[2]))
+		if donl {
+			b = append(b, be16b(tokInt(f[3]))...)
+		}
+		first := tokBytes(f[4])
+		b = append(append(b, be16b(int64(len(first)))...), first...)
+		for _, o := range tokList(f[5]) {
+			ol := tokList(o)
+			if donl {
+				b = append(b, byte(tokInt(ol[0])))
+			}
+			u := tokBytes(ol[1])
+			b = append(append(b, be16b(int64(len(u)))...), u...)
+		}
+		return b
+	case 2:
+		b := hdr(49, tokInt(f[1]), tokInt(f[2]))
+		s, e := tokInt(f[3]) != 0, tokInt(f[4]) != 0
+		fh := byte(tokInt(f[5]))
+		if s {
+			fh |= 0x80
+		}
+		if e {
+			fh |= 0x40
+		}
+		b = append(b, fh)
+		if donl && s {
+			b = append(b, be16b(tokInt(f[6]))...)
+		}
+		return append(b, tokBytes(f[7])...)
+	}
+	b := hdr(50, tokInt(f[1]), tokInt(f[2]))
+	w := tokInt(f[4])<<9 | tokInt(f[5])<<4 | tokInt(f[6])<<3 | tokInt(f[7])<<2 | tokInt(f[8])<<1 | tokInt(f[9])
+	if tokInt(f[3]) != 0 {
+		w |= 0x8000
+	}
+	b = append(b, be16b(w)...)
+	b = append(b, tokBytes(f[10])...)
+	return append(b, tokBytes(f[11])...)
+}
+
+func runRfc7798Form(donl bool, f []Tok) Outcome {
+	wire := rfc7798Encode(donl, f)
+	o := runH265Parse(donl, [][]byte{wire})
+	o.Impl = L(B(wire), o.Impl)
+	o.Nontrivial = true
+	if o.Fail != "" {
+		return o
+	}
+	fail := func(format string, a ...interface{}) {
+		if o.Fail == "" {
+			o.Fail = fmt.Sprintf(format, a...)
+		}
+	}
+	d := &codecs.H265Packet{}
+	d.WithDONL(donl)
+	if _, err := d.Unmarshal(append([]byte{}, wire...)); err != nil {
+		fail("well-formed RFC 7798 payload %x rejected: %v", wire, err)
+		return o
+	}
+	chkHdr := func(h codecs.H265NALUHeader, ty, layer, tid int64) {
+		if h.F() || int64(h.Type()) != ty || int64(h.LayerID()) != layer || int64(h.TID()) != tid {
+			fail("payload header decoded as F=%v type=%d layer=%d tid=%d, encoded type=%d layer=%d tid=%d", h.F(), h.Type(), h.LayerID(), h.TID(), ty, layer, tid)
+		}
+	}
+	chkDonl := func(got *uint16, present bool, want int64) {
+		if (got != nil) != present || (present && int64(*got) != want) {
+			fail("DONL decoded wrongly (present=%v)", got != nil)
+		}
+	}
+	switch v := d.Packet().(type) {
+	case *codecs.H265SingleNALUnitPacket:
+		if tokInt(f[0]) != 0 {
+			fail("decoded as a single NAL unit packet")
+			break
+		}
+		chkHdr(v.PayloadHeader(), tokInt(f[1]), tokInt(f[2]), tokInt(f[3]))
+		chkDonl(v.DONL(), donl, tokInt(f[4]))
+		if !bytes.Equal(v.Payload(), tokBytes(f[5])) {
+			fail("single NAL unit payload differs")
+		}
+	case *codecs.H265AggregationPacket:
+		if tokInt(f[0]) != 1 {
+			fail("decoded as an aggregation packet")
+			break
+		}
+		chkDonl(v.FirstUnit().DONL(), donl, tokInt(f[3]))
+		os := tokList(f[5])
+		if !bytes.Equal(v.FirstUnit().NalUnit(), tokBytes(f[4])) || len(v.OtherUnits()) != len(os) {
+			fail("aggregation units decoded wrongly: %d other units, %d encoded", len(v.OtherUnits()), len(os))
+			break
+		}
+		for i, u := range v.OtherUnits() {
+			ol := tokList(os[i])
+			if !bytes.Equal(u.NalUnit(), tokBytes(ol[1])) || (u.DOND() != nil) != donl || (donl && int64(*u.DOND()) != tokInt(ol[0])) {
+				fail("aggregation unit %d decoded wrongly", i+1)
+			}
+		}
+	case *codecs.H265FragmentationUnitPacket:
+		if tokInt(f[0]) != 2 {
+			fail("decoded as a fragmentation unit")
+			break
+		}
+		chkHdr(v.PayloadHeader(), 49, tokInt(f[1]), tokInt(f[2]))
+		fh := v.FuHeader()
+		s := tokInt(f[3]) != 0
+		if fh.S() != s || fh.E() != (tokInt(f[4]) != 0) || int64(fh.FuType()) != tokInt(f[5]) {
+			fail("FU header decoded as S=%v E=%v type=%d", fh.S(), fh.E(), fh.FuType())
+		}
+		chkDonl(v.DONL(), donl && s, tokInt(f[6]))
+		if !bytes.Equal(v.Payload(), tokBytes(f[7])) {
+			fail("FU payload differs")
+		}
+	case *codecs.H265PACIPacket:
+		if tokInt(f[0]) != 3 {
+			fail("decoded as a PACI packet")
+			break
+		}
+		chkHdr(v.PayloadHeader(), 50, tokInt(f[1]), tokInt(f[2]))
+		phes := tokBytes(f[10])
+		if v.A() != (tokInt(f[3]) != 0) || int64(v.CType()) != tokInt(f[4]) || int64(v.PHSsize()) != tokInt(f[5]) ||
+			v.F0() != (tokInt(f[6]) != 0) || v.F1() != (tokInt(f[7]) != 0) || v.F2() != (tokInt(f[8]) != 0) || v.Y() != (tokInt(f[9]) != 0) {
+			fail("PACI fields decoded as A=%v cType=%d PHSsize=%d F0=%v F1=%v F2=%v Y=%v", v.A(), v.CType(), v.PHSsize(), v.F0(), v.F1(), v.F2(), v.Y())
+		}
+		if !bytes.Equal(v.PHES(), phes) || !bytes.Equal(v.Payload(), tokBytes(f[11])) {
+			fail("PACI PHES / payload split wrongly: PHES %x payload %x", v.PHES(), v.Payload())
+		}
+		var ts *codecs.H265TSCI
+		if pn, _ := catch(func() { ts = v.TSCI() }); pn {
+			fail("TSCI() panicked")
+			break
+		}
+		wantTS := tokInt(f[6]) != 0 && len(phes) >= 3
+		if (ts != nil) != wantTS {
+			fail("TSCI presence %v, F0=%d PHSsize=%d", ts != nil, tokInt(f[6]), len(phes))
+		} else if ts != nil && (ts.TL0PICIDX() != phes[0] || ts.IrapPicID() != phes[1] || ts.S() != (phes[2]&0x80 != 0) ||
+			ts.E() != (phes[2]&0x40 != 0) || ts.RES() != phes[2]&0x3F) {
+			fail("TSCI fields decoded as TL0PICIDX=%d IrapPicID=%d S=%v E=%v RES=%d from PHES %x", ts.TL0PICIDX(), ts.IrapPicID(), ts.S(), ts.E(), ts.RES(), phes[:3])
+		}
+	default:
+		fail("no payload structure decoded")
+	}
+	return o
+}
+
 func init() {
 	run := func(op int, toks []Tok) Outcome {
 		switch op {
+		case 1405:
+			return runRfc7798Form(tokInt(toks[0]) != 0, tokList(toks[1]))
 		case 1401:
 			return runH265History(tokInt(toks[0]) != 0, tokInt(toks[1]) != 0, tokList(toks[2]))
 		case 1402:
@@ -238,7 +475,7 @@ func init() {
 	}
 	register(&Prop{
 		ID:       "C14",
-		Rule:     "HEVC NAL sequences (types 0-47, >= 3 bytes, sizes concentrated on MTU-4..MTU+2, 3/4-byte start codes) x MTU 4-1500 x SkipAggregation x AddDONL: payloader output parsed by H265Packet and reassembled per RFC 7798; payloads from an independent RFC 7798 encoder (single, aggregation, FU, PACI with TSCI, with/without DONL) and their truncations and mutations; payload-header accessors over a 4096-point lattice of the 16-bit domain (all 2^16 in thorough), all 256 FU headers; non-trivial = a fragmented or aggregated unit, or an accepted payload",
+		Rule:     "HEVC NAL sequences (types 0-47, >= 3 bytes, sizes concentrated on MTU-4..MTU+2, 3/4-byte start codes) x MTU 4-1500 x SkipAggregation x AddDONL: payloader output parsed by H265Packet and reassembled per RFC 7798; forms (single, aggregation of 2-5 units, FU, PACI with PHSsize 0-31 and TSCI; boundary layer ids, TIDs, DONL/DOND values) encoded by an independent RFC 7798 encoder in Go and by Spec/Rfc7798.v, with and without DONL, decoded by H265Packet and compared field by field with the form; random, truncated and mutated payloads; payload-header accessors over a 4096-point lattice of the 16-bit domain (all 2^16 in thorough), all 256 FU headers; non-trivial = a fragmented or aggregated unit, or an accepted payload",
 		Quick:    3000,
 		Thorough: 150000,
 		Gen: func(r *RNG, tier string, n int, emit func(op int, toks ...Tok)) {
@@ -254,6 +491,8 @@ func init() {
 			}
 			for i := 0; i < n; i++ {
 				c := r.Fork(uint64(i))
+				// parser clause: a form for the independent RFC 7798 encoder
+				emit(1405, TI(b2i(c.Bool())), genRfc7798Form(c.Fork(77)))
 				if c.Intn(3) != 0 {
 					donl, skip := c.Intn(4) == 0, c.Intn(3) == 0
 					mtu := c.Pick(4, 5, 6, 7, 8, 10, 16, 30, 100, 1200, 4+c.Intn(60))
